@@ -913,14 +913,38 @@ func c16comparePositions(c *Ctx, side, op string, cd c16coder, off int64, bytesS
 	return ok
 }
 
+// c16chunkReader hands out at most n bytes per Read.
+type c16chunkReader struct {
+	data []byte
+	n    int
+}
+
+func (r *c16chunkReader) Read(p []byte) (int, error) {
+	if len(r.data) == 0 {
+		return 0, io.EOF
+	}
+	k := min(r.n, len(p), len(r.data))
+	copy(p, r.data[:k])
+	r.data = r.data[k:]
+	return k, nil
+}
+
 var c16decOps = []string{"RT", "RV", "SV", "PK"}
 
 // c16runDecScript runs one call script over doc and checks positions after every call.
-func c16runDecScript(c *Ctx, doc []byte, script []int, toks []c16tok, valueEnd map[int]int) {
-	dec := jsontext.NewDecoder(bytes.NewBuffer(append([]byte(nil), doc...)))
+func c16runDecScript(c *Ctx, doc []byte, script []int, toks []c16tok, valueEnd map[int]int, reader, probeEvery int) {
+	var dec *jsontext.Decoder
+	switch reader {
+	case 0:
+		dec = jsontext.NewDecoder(bytes.NewBuffer(append([]byte(nil), doc...)))
+	case 1:
+		dec = jsontext.NewDecoder(bytes.NewReader(doc)) // refills and buffer compaction happen
+	default:
+		dec = jsontext.NewDecoder(&c16chunkReader{data: doc, n: reader - 1})
+	}
 	prev := int64(0)
 	var trace []string
-	for _, opi := range script {
+	for ci, opi := range script {
 		op := c16decOps[opi]
 		trace = append(trace, op)
 		var err error
@@ -995,8 +1019,12 @@ func c16runDecScript(c *Ctx, doc []byte, script []int, toks []c16tok, valueEnd m
 			c.Violate("offset-mismatch", "Decoder/"+op, doc, detail)
 			return
 		}
-		if !c16comparePositions(c, "Decoder", op, dec, off, doc[:off], doc, detail) {
-			return
+		// probing StackPointer copies the pending names out of the read buffer, which would hide a stale
+		// buffer reference: some runs probe only every k-th call or only after the last call
+		if ci%probeEvery == probeEvery-1 || ci == len(script)-1 || err != nil {
+			if !c16comparePositions(c, "Decoder", op, dec, off, doc[:off], doc, detail) {
+				return
+			}
 		}
 		if err != nil && err != io.EOF {
 			// after a rejected call on valid text the decoder stays usable only for some errors; stop here
@@ -1063,7 +1091,7 @@ func c16Decoder(c *Ctx) {
 			var rec func()
 			rec = func() {
 				if len(script) == L {
-					c16runDecScript(c, doc, script, toks, valueEnd)
+					c16runDecScript(c, doc, script, toks, valueEnd, (len(doc)+script[0])%2, 1+2*(script[1]%2))
 					c.Case("dec:"+d+fmt.Sprint(script), true)
 					return
 				}
@@ -1078,7 +1106,7 @@ func c16Decoder(c *Ctx) {
 	}
 	wg.Wait()
 	// random longer scripts on larger documents
-	nbig := c.N(1500, 60000)
+	nbig := c.N(6000, 200000)
 	for i := 0; i < nbig; i++ {
 		d := c16genDoc(r, 6, true)
 		doc := []byte(d)
@@ -1088,7 +1116,11 @@ func c16Decoder(c *Ctx) {
 		for j := range script {
 			script[j] = []int{0, 0, 0, 0, 1, 2, 3}[r.IntN(7)]
 		}
-		c16runDecScript(c, doc, script, toks, valueEnd)
+		rd := []int{0, 1, 2, 4, 8, 65}[r.IntN(6)]
+		pe := []int{1, 2, 5, 1000}[r.IntN(4)]
+		c16runDecScript(c, doc, script, toks, valueEnd, rd, pe)
+		c.Hit(fmt.Sprintf("dec/probe-every-%d", pe))
+		c.Hit(fmt.Sprintf("dec/reader-kind-%d", rd))
 		c.Hit(fmt.Sprintf("dec/random-doc-bytes-%d", len(doc)/64*64))
 		c.Case("decR:"+d+fmt.Sprint(script), true)
 		if i < 2 {
